@@ -44,6 +44,8 @@ def run_concern(pid: str, tier: str, seed: int, runs=None) -> dict:
                 continue
             if pid == 'C08' and not any(c.base is not None for c in m.complex.values()):
                 continue
+            if pid == 'C09' and len({k[0] for k in list(m.complex) + list(m.simple) + list(m.elements)}) < 2:
+                continue
             models[p] = m
         except M.Unsupported as e:
             skipped.append(f'{os.path.relpath(p, VERIF)}: outside the subset ({e})')
@@ -91,15 +93,18 @@ def run_concern(pid: str, tier: str, seed: int, runs=None) -> dict:
         nprog += 1
         if ur.vr:
             solver_ms += ur.vr.smt_ms()
-        for (lab, ok, detail) in ((u.wire_checks() + u.c08_checks()) if hasattr(u, 'em') else []):
+        for (lab, ok, detail) in ((u.wire_checks() + u.c08_checks() + u.order_checks()) if hasattr(u, 'em') else []):
             ur.obligations.append(lab)
             if not ok:
-                wf_ = Failure(u.name, lab, ('element QName in the emitted yaserde attribute differs from the WSDL binding: ' if lab.startswith('wire:') else 'namespace prefix in the emitted yaserde attribute differs from the declaring schema: ') + detail, [], detail, props=[pid])
+                msg_ = {'wire': 'element QName in the emitted yaserde attribute differs from the WSDL binding: ',
+                        'ns:': 'namespace prefix in the emitted yaserde attribute differs from the declaring schema: ',
+                        'orde': 'members of the emitted struct are not in declaration order (base first, then own): '}.get(lab[:4] if lab[:3] != 'ns:' else 'ns:', '')
+                wf_ = Failure(u.name, lab, msg_ + detail, [], detail, props=[pid])
                 ur.failures.append(wf_)
         for ob in ur.obligations:
             res['obligations'].append(f'{u.name}:{ob}')
         for f in ur.failures:
-            if f.obligation.startswith(('emitted::', 'shape:', 'sig:', 'index:', 'wire:', 'ns:')):
+            if f.obligation.startswith(('emitted::', 'shape:', 'sig:', 'index:', 'wire:', 'ns:', 'order:')):
                 f.unit = u.name
                 f.props = [pid]
                 import re as _re
